@@ -95,47 +95,104 @@ def idiom_rules(ctx, index, rule):
 
 
 def single_pass_rule(ctx, index, rule, entry_fn):
-    """Parameters annotated Iterable[...] must be materialised (list/set/tuple/ordered_set or a comprehension doing so per element) before any other traversal."""
+    """Parameters annotated Iterable[...] must be materialised (list/set/tuple/ordered_set or a comprehension doing so per element) before any other traversal.
+    Followed into repository helpers the parameter is handed to (`inputs = _resolve(tensors, inputs)`)."""
     fn = entry_fn.node
     for a in fn.args.args:
         ann = ast.unparse(a.annotation) if a.annotation is not None else ""
         if "Iterable" not in ann:
             continue
         nested = ann.startswith("Sequence[Iterable") or "Sequence[Iterable" in ann
-        name = a.arg
-
-        def scan(stmts, state):
-            """Returns (state, verdict) after the statements; state in {'raw', 'materialised'}."""
-            for st in stmts:
-                if isinstance(st, ast.If):
-                    test_uses = [n for n in ast.walk(st.test) if isinstance(n, ast.Name) and n.id == name]
-                    if state == "raw" and test_uses and not all(is_len_or_none_test(fn, u) for u in test_uses):
-                        return state, (st, f"`{norm_text(st.test)}` traverses `{name}` before it is materialised")
-                    s1, v1 = scan(st.body, state)
-                    if v1:
-                        return s1, v1
-                    s2, v2 = scan(st.orelse, state) if st.orelse else (state, None)
-                    if v2:
-                        return s2, v2
-                    state = "materialised" if s1 == s2 == "materialised" else state
-                    continue
-                uses = [n for n in ast.walk(st) if isinstance(n, ast.Name) and n.id == name and isinstance(n.ctx, ast.Load)]
-                if isinstance(st, ast.Assign) and isinstance(st.targets[0], ast.Name) and st.targets[0].id == name:
-                    if not uses or materialises(st.value, name, nested):
-                        state = "materialised"
-                        continue
-                if not uses:
-                    continue
-                if state == "raw" and not all(is_len_or_none_test(fn, u) for u in uses):
-                    return state, (st, f"`{norm_text(st)[:100]}` traverses `{name}` before it is materialised: a one-shot iterable is exhausted and the later "
-                                       "conversion yields an empty collection")
-            return state, None
-
-        state, verdict = scan(fn.body, "raw")
+        state, verdict = _scan_param(index, entry_fn, a.arg, nested, 0)
         if verdict:
-            ctx.violated(rule, f"{entry_fn.short}: parameter `{name}` traversed before being materialised", verdict[1], entry_fn.loc(verdict[0]))
+            ctx.violated(rule, f"{entry_fn.short}: parameter `{a.arg}` traversed before being materialised", verdict[1], entry_fn.loc(verdict[0]))
         else:
-            ctx.ok(rule, f"{entry_fn.short}: parameter `{name}` ({ann})", "materialised before any traversal" if state == "materialised" else "never traversed raw", entry_fn.loc())
+            ctx.ok(rule, f"{entry_fn.short}: parameter `{a.arg}` ({ann})", "materialised before any traversal" if state == "materialised" else "never traversed raw", entry_fn.loc())
+
+
+def _scan_param(index, fi, name, nested, depth):
+    """(state after the function, (stmt, message) | None). States: raw (untouched one-shot iterable), materialised, consumed (traversed by a callee
+    that kept the result for itself: nothing is left for the caller)."""
+    from ..index import FunctionInfo
+
+    fn = fi.node
+
+    def callee_of(call):
+        f = call.func
+        if isinstance(f, ast.Name):
+            r = index.resolve_name(fi.module, f.id)
+            return r if isinstance(r, FunctionInfo) else None
+        return None
+
+    def handed_to(st):
+        """[(call, callee, callee parameter name)] for calls in the statement that receive the raw name itself as an argument."""
+        out = []
+        for c in ast.walk(st):
+            if not isinstance(c, ast.Call):
+                continue
+            cal = callee_of(c)
+            if cal is None or depth >= 2:
+                continue
+            params = [x.arg for x in cal.node.args.args]
+            for i, arg in enumerate(c.args):
+                if isinstance(arg, ast.Name) and arg.id == name and i < len(params):
+                    out.append((c, cal, params[i]))
+            for kw in c.keywords:
+                if isinstance(kw.value, ast.Name) and kw.value.id == name and kw.arg in params:
+                    out.append((c, cal, kw.arg))
+        return out
+
+    def scan(stmts, state):
+        for st in stmts:
+            if isinstance(st, ast.If):
+                test_uses = [n for n in ast.walk(st.test) if isinstance(n, ast.Name) and n.id == name]
+                if state in ("raw", "consumed") and test_uses and not all(is_len_or_none_test(fn, u) for u in test_uses):
+                    return state, (st, f"`{norm_text(st.test)}` traverses `{name}` before it is materialised")
+                s1, v1 = scan(st.body, state)
+                if v1:
+                    return s1, v1
+                s2, v2 = scan(st.orelse, state) if st.orelse else (state, None)
+                if v2:
+                    return s2, v2
+                state = "materialised" if s1 == s2 == "materialised" else ("consumed" if "consumed" in (s1, s2) else state)
+                continue
+            uses = [n for n in ast.walk(st) if isinstance(n, ast.Name) and n.id == name and isinstance(n.ctx, ast.Load)]
+            assigns_name = isinstance(st, ast.Assign) and isinstance(st.targets[0], ast.Name) and st.targets[0].id == name
+            if assigns_name and (not uses or materialises(st.value, name, nested)):
+                state = "materialised"
+                continue
+            if not uses:
+                continue
+            if state == "materialised":
+                continue
+            real = [u for u in uses if not is_len_or_none_test(fn, u)]
+            if not real:
+                continue
+            hand = handed_to(st)
+            if state == "raw" and hand and len(hand) == len(real):
+                # every use of the raw iterable in this statement is "passed on to a helper": the helper decides
+                after = set()
+                for c, cal, pname in hand:
+                    s_c, v_c = _scan_param(index, cal, pname, nested, depth + 1)
+                    if v_c:
+                        return state, (st, f"`{norm_text(st)[:80]}` hands `{name}` to {cal.short}, where {v_c[1]}")
+                    after.add(s_c)
+                if after <= {"raw"}:
+                    continue  # the helper does not look into it
+                if assigns_name and isinstance(st.value, ast.Call) and any(c is st.value for c, _, _ in hand):
+                    state = "materialised"  # the helper returns what it built from the iterable
+                else:
+                    state = "consumed"
+                    consumed_by[0] = norm_text(st)[:80]
+                continue
+            if state == "consumed":
+                return state, (st, f"`{norm_text(st)[:100]}` uses `{name}` after `{consumed_by[0]}` already traversed it: a one-shot iterable is exhausted by then")
+            return state, (st, f"`{norm_text(st)[:100]}` traverses `{name}` before it is materialised: a one-shot iterable is exhausted and the later "
+                               "conversion yields an empty collection")
+        return state, None
+
+    consumed_by = [""]
+    return scan(fn.body, "raw")
 
 
 MATERIALISERS = ("list", "tuple", "set", "frozenset", "sorted", "ordered_set", "dict.fromkeys", "OrderedDict.fromkeys", "collections.OrderedDict.fromkeys")
